@@ -422,8 +422,8 @@ class JSObject:
 
     def keys(self) -> List[str]:
         """Get own enumerable property keys (data and accessor properties, creation order)."""
-        if not self._getters and not self._setters:
-            return list(self._properties.keys())
+        # (creation order of the keys: a key that changed from accessor to data property
+        # or back keeps the place it had)
         return list(self._order.keys())
 
     def __repr__(self) -> str:
